@@ -42,6 +42,9 @@ pub fn prepare(src: &str, opts: &Opts) -> Prep {
     match o {
         Outcome::Ok(obs) => match build(&obs) {
             Ok(b) => {
+                if b.asm.errors.iter().any(|e| e.kind == "image-too-large") {
+                    return Prep::Skip("image larger than one 4K bank (not executed)".into());
+                }
                 if !b.asm.errors.is_empty() {
                     let e = &b.asm.errors[0];
                     return Prep::Skip(format!("does not assemble (C13's business): {}", e.kind));
